@@ -147,6 +147,9 @@ func runProgram(rep *lib.Report, name string, scs []*gen.TScenario, runs int, fi
 			verdict += "+error"
 		}
 		rep.Count(fmt.Sprintf("observed=%v,tool=%s", observed > 0, verdict))
+		if os.Getenv("VERIF_C13_VERBOSE") != "" {
+			fmt.Printf("VERDICT %s observed=%d tool=%s escapes=%d\n", sc.Key(), observed, verdict, len(res.Escapes))
+		}
 		if missingCtx {
 			rep.Count("context_defined=false:dir=" + sc.Dir + ",share=" + sc.Share)
 		} else {
